@@ -32,6 +32,7 @@ type modEngine struct {
 
 func (p *Program) Mod() *modEngine {
 	if p.mod == nil {
+		asmStubWrites = asmWriteModel(p)
 		p.mod = &modEngine{p: p, memo: map[*ssa.Function][]modWrite{}, doing: map[*ssa.Function]bool{}}
 	}
 	return p.mod
@@ -102,6 +103,14 @@ func sharedRoot(f *ssa.Function, addr ssa.Value) string {
 		if pointerLike(b.Type()) {
 			return paramDesc(b)
 		}
+		// a struct (or array) passed by value: an address rooted directly at the parameter can only be a
+		// pointer / slice taken out of one of its fields, i.e. memory the caller's object points to as well
+		switch b.Type().Underlying().(type) {
+		case *types.Struct, *types.Array:
+			if pointerLike(addr.Type()) || sliceLike(addr.Type()) {
+				return paramDesc(b)
+			}
+		}
 	case *ssa.Global:
 		return "global:" + short(b.String())
 	case *ssa.Alloc:
@@ -112,13 +121,90 @@ func sharedRoot(f *ssa.Function, addr ssa.Value) string {
 					if par, ok := st.Val.(*ssa.Parameter); ok && pointerLike(par.Type()) {
 						return paramDesc(par)
 					}
+					// a struct copied out of the caller's memory (s := shares[0]): the pointers and slices
+					// inside the copy still refer to the caller's object
+					if ld, ok := st.Val.(*ssa.UnOp); ok && ld.Op == token.MUL {
+						if _, isStruct := ld.Type().Underlying().(*types.Struct); isStruct {
+							if _, isAlloc := ld.X.(*ssa.Alloc); !isAlloc {
+								if r := sharedRoot(f, ld.X); r != "" {
+									return r
+								}
+							}
+						}
+					}
 				}
 			}
 		}
 	case *ssa.FreeVar:
 		return "freevar:" + b.Name()
+	case *ssa.Call:
+		// the result of a circl function that may hand back a pointer it keeps in a field of one of its
+		// arguments (a cache accessor): memory reached through it belongs to that argument
+		if cal := b.Call.StaticCallee(); cal != nil && cal.Blocks != nil && isCirclFunc(cal) && pointerLike(b.Type()) {
+			for _, j := range mayReturnParamField(cal) {
+				if j < len(b.Call.Args) {
+					if r := sharedRoot(f, b.Call.Args[j]); r != "" {
+						return r
+					}
+				}
+			}
+		}
 	}
 	return ""
+}
+
+var retFieldMemo = map[*ssa.Function][]int{}
+
+// mayReturnParamField: indices of the parameters of cal such that some return statement returns a
+// pointer loaded from a field of (memory reached through) that parameter.
+func mayReturnParamField(cal *ssa.Function) []int {
+	if r, ok := retFieldMemo[cal]; ok {
+		return r
+	}
+	retFieldMemo[cal] = nil
+	set := map[int]bool{}
+	var visit func(v ssa.Value, depth int)
+	visit = func(v ssa.Value, depth int) {
+		if depth > 6 {
+			return
+		}
+		switch x := v.(type) {
+		case *ssa.Phi:
+			for _, e := range x.Edges {
+				visit(e, depth+1)
+			}
+		case *ssa.UnOp:
+			if x.Op != token.MUL {
+				return
+			}
+			if fa, ok := x.X.(*ssa.FieldAddr); ok {
+				base, _ := memRoot(fa)
+				if par, ok := base.(*ssa.Parameter); ok {
+					for i, q := range cal.Params {
+						if q == par {
+							set[i] = true
+						}
+					}
+				}
+			}
+		}
+	}
+	for _, b := range cal.Blocks {
+		if ret, ok := b.Instrs[len(b.Instrs)-1].(*ssa.Return); ok {
+			for _, r := range ret.Results {
+				if pointerLike(r.Type()) {
+					visit(r, 0)
+				}
+			}
+		}
+	}
+	var out []int
+	for i := range set {
+		out = append(out, i)
+	}
+	sort.Ints(out)
+	retFieldMemo[cal] = out
+	return out
 }
 
 // big.Int methods that write their receiver.
@@ -127,6 +213,37 @@ var bigWriters = map[string]bool{}
 func init() {
 	for _, m := range strings.Fields("Abs Add And AndNot Binomial Div DivMod Exp Exp GCD Lsh Mod ModInverse ModSqrt Mul MulRange Neg Not Or Quo QuoRem Rand Rem Rsh Set SetBit SetBits SetBytes SetInt64 SetString SetUint64 Sqrt Sub Xor GobDecode UnmarshalJSON UnmarshalText") {
 		bigWriters["(*math/big.Int)."+m] = true
+	}
+}
+
+// asmStubWrites is set per program: the body-less (assembly) functions of circl and what they write.
+var asmStubWrites func(name string) ([]int, bool)
+
+// asmWriteModel builds the table for the loaded program.
+func asmWriteModel(p *Program) func(string) ([]int, bool) {
+	tab := map[string][]int{}
+	for f := range p.AllFuncs {
+		if f.Blocks != nil || !isCirclFunc(f) || f.Synthetic != "" || f.Signature.Params().Len() == 0 {
+			continue
+		}
+		if _, ok := f.Signature.Params().At(0).Type().Underlying().(*types.Pointer); !ok {
+			continue
+		}
+		n := f.Name()
+		switch {
+		case strings.HasPrefix(n, "exceeds"):
+			tab[fname(f)] = []int{}
+		case strings.HasPrefix(n, "packLe16"):
+			tab[fname(f)] = []int{1}
+		case strings.HasPrefix(n, "cswap") || strings.HasPrefix(n, "addsub"):
+			tab[fname(f)] = []int{0, 1}
+		default:
+			tab[fname(f)] = []int{0}
+		}
+	}
+	return func(name string) ([]int, bool) {
+		w, ok := tab[name]
+		return w, ok
 	}
 }
 
@@ -154,6 +271,13 @@ func externalWrites(name string, nargs int) []int {
 	}
 	if strings.Contains(name, "encoding/binary.") && strings.Contains(name, ".PutUint") {
 		return []int{nargs - 2}
+	}
+	// circl's assembly routines (no Go body): the first pointer argument is the destination; swaps and the
+	// add/sub pair write both operands; the listed ones only read it
+	if asmStubWrites != nil {
+		if w, ok := asmStubWrites(name); ok {
+			return w
+		}
 	}
 	// circl's own destructive interface conventions: receiver of group operations is the destination
 	if strings.HasPrefix(name, "invoke (group.Element).") || strings.HasPrefix(name, "invoke (group.Scalar).") {
